@@ -221,22 +221,9 @@ def load_corpus():
     return cases
 
 
-def _private_target():
-    """cargo's freshness test is mtime-based relative to the package root, so one target dir shared between
-    source trees reuses stale binaries (observed: /repo run with the worktree's binary and vice versa).
-    Until vplib separates them: one target dir per checked tree for this property's runs."""
-    import hashlib
-    if getattr(vplib, "TARGET_PER_TREE", False):
-        return
-    rp = os.path.realpath(vplib.REPO)
-    if rp != "/repo":
-        vplib.TARGET = os.path.join(vplib.CACHE, "target_alt_" + hashlib.sha1(rp.encode()).hexdigest()[:8])
-
-
 def main():
     c = vplib.Check("C05")
     c.run_gate()
-    _private_target()
     rng = c.rng
     thorough = c.tier == "thorough"
     scale = 8 if thorough else 1
